@@ -56,6 +56,7 @@ Import ListNotations.
 """
 
 KNOWN_F9 = "sac-target-interval-restarts-each-train-call"
+CAND_SHARED = "td3-shared-target-features-extractor-updated-twice"
 
 
 # ---------------------------------------------------------------- (a) polyak_update on tensor lists
@@ -85,6 +86,53 @@ def gen_polyak_case(rng, i):
             else:
                 events.append(["upd", rng.choice([0.0, 1.0, 0.5, 0.25, 0.75])])
     return {"id": i, "exact": exact, "tau": tau, "shapes": shapes, "ps": ps, "ts": ts, "extra": extra, "events": events}
+
+
+def gen_units_case(rng, i):
+    """a short history of cadence units on (online, target) parameter and running-statistics lists: Model.Polyak.units_run"""
+    k, m = rng.randint(1, 3), rng.randint(0, 2)
+    val = lambda: rng.randint(-32, 32) / 4.0  # noqa: E731
+    return {"id": i, "ptau": rng.choice([0.0, 1.0, 0.5, 0.25, 0.75]),
+            "p0": [val() for _ in range(k)], "s0": [val() for _ in range(m)], "tp0": [val() for _ in range(k)], "ts0": [val() for _ in range(m)],
+            "units": [[[val() for _ in range(k)], [val() for _ in range(m)], rng.random() < 0.4] for _ in range(rng.randint(1, 6))]}
+
+
+def run_units(case):
+    import torch as th
+
+    from stable_baselines3.common.utils import polyak_update
+
+    f = lambda v: th.tensor(v, dtype=th.float32)  # noqa: E731
+    on_p, on_s, tg_p, tg_s = [f([x]) for x in case["p0"]], [f([x]) for x in case["s0"]], [f([x]) for x in case["tp0"]], [f([x]) for x in case["ts0"]]
+    for np_, ns_, flag in case["units"]:
+        with th.no_grad():
+            for t, x in zip(on_p, np_):
+                t.fill_(x)
+            for t, x in zip(on_s, ns_):
+                t.fill_(x)
+        if flag:                                   # the two calls every algorithm makes at an update instant
+            polyak_update(on_p, tg_p, case["ptau"])
+            polyak_update(on_s, tg_s, 1.0)
+    return {"tg_p": [float(t) for t in tg_p], "tg_s": [float(t) for t in tg_s]}
+
+
+def units_expr(case, impl):
+    q = lambda v: coq_list([Fraction(x) for x in v], coq_Q)  # noqa: E731
+    us = coq_list([f"({q(a)}, {q(b)}, {'true' if fl else 'false'})" for a, b, fl in case["units"]])
+    return (f"let r := units_run {coq_Q(Fraction(case['ptau']))} 1 (mkN {q(case['p0'])} {q(case['s0'])} {q(case['tp0'])} {q(case['ts0'])}) {us} in "
+            f"(qclose_list 0 0 (tg_params r) {q(impl['tg_p'])}, qclose_list 0 0 (tg_stats r) {q(impl['tg_s'])})")
+
+
+def oracle_units(case, impl):
+    tp, ts = [Fraction(x) for x in case["tp0"]], [Fraction(x) for x in case["ts0"]]
+    tau = Fraction(case["ptau"])
+    for np_, ns_, flag in case["units"]:
+        if flag:
+            tp = [(1 - tau) * t + tau * Fraction(p) for p, t in zip(np_, tp)]
+            ts = [Fraction(x) for x in ns_]
+    if [Fraction(x) for x in impl["tg_p"]] != tp or [Fraction(x) for x in impl["tg_s"]] != ts:
+        return [("oracle-polyak-units", f"after units {[(a, b, fl) for a, b, fl in case['units']]} targets {impl['tg_p']} / statistics {impl['tg_s']}, expected {[float(x) for x in tp]} / {[float(x) for x in ts]}")]
+    return []
 
 
 def _size(s):
@@ -210,6 +258,7 @@ def gen_run(rng, i):
     return {"id": i, "algo": algo, "n_envs": n_envs, "train_freq": tf, "gradient_steps": rng.choice([1, 1, 2, 3, 4, -1]),
             "tui": rng.choice([1, 2, 3, 4, 5, 7, 10]), "policy_delay": rng.choice([1, 2, 2, 3]),
             "tau": rng.choice([1.0, 0.5, 0.25, 0.005, 0.0]), "learning_starts": rng.choice([0, 2, 5]),
+            "ent_coef": rng.choice(["auto", "auto", 0.1, "auto_0.5"]), "use_sde": rng.random() < 0.25, "share_fe": rng.random() < 0.3, "n_critics": rng.choice([1, 2, 2, 3]),
             "total": rng.randint(14, 36), "total2": rng.choice([None, None, rng.randint(5, 20)]), "bn": rng.random() < 0.3, "ep_len": rng.choice([3, 4, 6])}
 
 
@@ -273,7 +322,8 @@ def run_algo(cfg):
         opts = {"policy.optimizer": model.policy.optimizer}
         tick = "policy.optimizer"
     elif algo == "SAC":
-        model = sb3.SAC("MlpPolicy", venv, target_update_interval=cfg["tui"], **kw)
+        kw["policy_kwargs"] = dict(kw["policy_kwargs"], n_critics=cfg.get("n_critics", 2), share_features_extractor=bool(cfg.get("share_fe")))
+        model = sb3.SAC("MlpPolicy", venv, target_update_interval=cfg["tui"], ent_coef=cfg.get("ent_coef", "auto"), use_sde=bool(cfg.get("use_sde")), sde_sample_freq=2, **kw)
         mod = sb3.sac.sac
         targets = {"critic_target": model.critic_target}
         onlines = {"critic_target": model.critic}
@@ -284,6 +334,7 @@ def run_algo(cfg):
     else:
         cls = sb3.TD3 if algo == "TD3" else sb3.DDPG
         extra = {"policy_delay": cfg["policy_delay"]} if algo == "TD3" else {}
+        kw["policy_kwargs"] = dict(kw["policy_kwargs"], share_features_extractor=bool(cfg.get("share_fe")), **({"n_critics": cfg.get("n_critics", 2)} if algo == "TD3" else {}))
         model = cls("MlpPolicy", venv, **extra, **kw)
         mod = sb3.td3.td3
         targets = {"critic_target": model.critic_target, "actor_target": model.actor_target}
@@ -300,11 +351,13 @@ def run_algo(cfg):
     def snap():
         return th.cat([t.detach().reshape(-1).float() for t in target_tensors]).clone()
 
-    out = {"events": [], "problems": [], "monitor": [], "has_bn": any("running_" in n for net in targets.values() for n, _ in net.named_buffers())}
+    out = {"events": [], "problems": [], "monitor": [], "instant_law": [], "has_bn": any("running_" in n for net in targets.values() for n, _ in net.named_buffers())}
     ev = out["events"]
     st = {"last": snap(), "polyak_since": False}
 
     def mark(what):
+        if what != "polyak_update entry" and inst:
+            close_instant()
         s = snap()
         if not th.equal(s, st["last"]) and not st["polyak_since"]:
             out["problems"].append(f"a target tensor changed before event {what} (#{len(ev)}) without a polyak_update call")
@@ -333,16 +386,29 @@ def run_algo(cfg):
 
     # ---- polyak_update as the modules call it
     orig_polyak = sb3_utils.polyak_update
-    which_by_id = {}
-    for nm in targets:
-        which_by_id[id(next(iter(targets[nm].parameters())))] = nm
+    ids_of = {nm: [id(x) for x in net.parameters()] for nm, net in targets.items()}
+    inst = {}                     # data_ptr of a target tensor -> [value before the update instant, online value, tau, number of polyak writes]
+    shared_ptrs = set()
+    if len(targets) == 2:
+        a_, b_ = [set(x.data_ptr() for x in net.parameters()) for net in targets.values()]
+        shared_ptrs = a_ & b_
+
+    def close_instant():
+        for ptr, (bt, bp, tau_, cnt, t) in inst.items():
+            want = (1 - tau_) * bt.float() + tau_ * bp.float()
+            if not th.allclose(t.detach().float(), want, rtol=1e-5, atol=1e-6):
+                twice = (1 - tau_) * want + tau_ * bp.float()
+                kind = "shared-twice" if (ptr in shared_ptrs and cnt == 2 and th.allclose(t.detach().float(), twice, rtol=1e-5, atol=1e-6)) else "other"
+                out["instant_law"].append([kind, float(tau_), cnt, float((t.detach().float() - want).abs().max())])
+        inst.clear()
 
     def polyak(params, target_params, tau):
         params, target_params = list(params), list(target_params)
         if not params and not target_params:
             return orig_polyak(params, target_params, tau)          # empty list of running statistics (no normalisation layer)
         is_bn = len(target_params) > 0 and not isinstance(target_params[0], nn.Parameter)
-        which = which_by_id.get(id(target_params[0]) if target_params else None, "?")
+        tids = [id(x) for x in target_params]
+        which = next((nm for nm, l in ids_of.items() if l == tids), "?")
         if is_bn:
             which = "bn:?"
             for nm, net in targets.items():
@@ -351,6 +417,12 @@ def run_algo(cfg):
         mark("polyak_update entry")
         before_t = [t.detach().clone() for t in target_params]
         before_p = [p.detach().clone() for p in params]
+        for t_, bt_, bp_ in zip(target_params, before_t, before_p):
+            e_ = inst.get(t_.data_ptr())
+            if e_ is None:
+                inst[t_.data_ptr()] = [bt_, bp_, float(tau), 1, t_]
+            else:
+                e_[3] += 1
         r = orig_polyak(params, target_params, tau)
         law = len(params) == len(target_params) and all(
             th.allclose(t.detach().float(), (1 - tau) * bt.float() + tau * bp.float(), rtol=1e-5, atol=1e-6)
@@ -460,7 +532,8 @@ def flags_of(cfg, impl):
         m = sorted(u["main"])
         if m and m != sorted(main):
             probs.append(f"an update touched targets {m}, expected all of {sorted(main)} exactly once")
-        if m and impl["has_bn"] and sorted(x.split(":", 1)[1] for x in u["bn"] if ":" in x) != sorted(main):
+        # one tau = 1 copy of running statistics per updated target (a features extractor shared by two targets is named once for both)
+        if m and impl["has_bn"] and len(u["bn"]) != len(main):
             probs.append(f"an update of {m} did not copy the running statistics of every target (copied: {u['bn']})")
         if not m and u["bn"]:
             probs.append("running statistics copied without a parameter update")
@@ -508,6 +581,12 @@ def oracle_run(cfg, impl, flags, gs, actor, structural):
         probs.append(("oracle-target-changed-outside-update", p))
     for p in impl["monitor"]:
         probs.append(("monitor-optimizer-touches-target", p))
+    for kind, tau_, cnt, err in impl.get("instant_law", []):
+        if kind == "shared-twice" and cfg["algo"] in ("TD3", "DDPG") and cfg.get("share_fe"):
+            probs.append((CAND_SHARED, f"{cfg['algo']} with share_features_extractor=True and a parametric features extractor: the target features extractor belongs to critic_target AND actor_target "
+                                       f"and is written by both polyak_update calls of one update: target = (1-tau)^2*target + (1-(1-tau)^2)*online (tau={tau_}), not (1-tau)*target + tau*online (error {err:.3g})"))
+        else:
+            probs.append(("oracle-update-instant-law", f"after an update instant a target tensor written {cnt} time(s) differs from (1-tau)*target + tau*online (tau={tau_}) by {err:.3g}"))
     idx = [i for i, f in enumerate(flags) if f]
     a = cfg["algo"]
     if a == "DQN":
@@ -552,8 +631,9 @@ def load_corpus():
     return [json.loads(l) for l in open(p) if l.strip()] if os.path.exists(p) else []
 
 
-def run_all(chk, pcases, runs):
+def run_all(chk, pcases, runs, ucases=()):
     pimpls = [run_polyak(c) for c in pcases]
+    uimpls = [run_units(c) for c in ucases]
     rimpls, derived = [], []
     for cfg in runs:
         try:
@@ -573,8 +653,11 @@ def run_all(chk, pcases, runs):
                 exprs.append(closed_form_expr(cfg))
         else:
             ridx.append(None)
+    u0 = len(exprs)
+    exprs += [units_expr(c, im) for c, im in zip(ucases, uimpls)]
     vals = common.coq_eval_many("C08", HEADER, exprs, shard=60, procs=4)
-    return pimpls, rimpls, derived, vals, ridx
+    run_all.units = (uimpls, vals[u0:])
+    return pimpls, rimpls, derived, vals[:u0], ridx
 
 
 def main():
@@ -588,8 +671,18 @@ def main():
     corpus = load_corpus()
     pcases = [gen_polyak_case(chk.rng, i) for i in range(n_p)]
     runs = [c for c in corpus] + [gen_run(chk.rng, i) for i in range(n_r)]
-    pimpls, rimpls, derived, vals, ridx = run_all(chk, pcases, runs)
+    ucases = [gen_units_case(chk.rng, i) for i in range(100 if quick else 1500)]
+    pimpls, rimpls, derived, vals, ridx = run_all(chk, pcases, runs, ucases)
     new = 0
+    for c, im, mv in zip(ucases, *run_all.units):
+        orc = oracle_units(c, im)
+        if orc and new < 3:
+            chk.violation(orc[0][0], orc[0][1], {"units_case": c, "impl": im}, found_input=True)
+            new += 1
+        elif not (all(mv[0]) and all(mv[1])) and new < 3:
+            chk.violation("model-correspondence-units-run", f"polyak_update sequence vs Model.Polyak.units_run disagree: {mv}", {"units_case": c, "impl": im,
+                          "correspondence": "harness/c08.py run_units vs Model.Polyak.units_run"}, found_input=False)
+            new += 1
     # (a)
     for c, im, mv in zip(pcases, pimpls, vals[:len(pcases)]):
         orc = oracle_polyak(c, im)
@@ -622,7 +715,12 @@ def main():
         hist["closed_form_checked"] += int(cfg["train_freq"] != "episode" and not cfg.get("total2"))
         mflags = list(vals[ri])
         f9 = [p for p in orc if p[0] == KNOWN_F9]
-        other = [p for p in orc if p[0] != KNOWN_F9]
+        cs = [p for p in orc if p[0] == CAND_SHARED]
+        other = [p for p in orc if p[0] not in (KNOWN_F9, CAND_SHARED)]
+        if cs:
+            hist["shared_extractor_runs"] = hist.get("shared_extractor_runs", 0) + 1
+            if hist["shared_extractor_runs"] == 1:
+                chk.violation(CAND_SHARED, cs[0][1], {"run": cfg}, found_input=True)
         if f9:
             hist["f9_runs"] += 1
             if hist["f9_runs"] == 1:
@@ -640,7 +738,7 @@ def main():
                           {"run": cfg, "flags": flags, "model_flags": mflags, "train_calls": gs,
                            "correspondence": "harness/c08.py instrumented run vs Model.Cadence"}, found_input=False)
             new += 1
-    chk.coverage["evaluations"] = len(pcases) + len(runs)
+    chk.coverage["evaluations"] = len(pcases) + len(runs) + len(ucases)
     chk.coverage["traces_validated_against_impl"] = len(runs)
     chk.coverage["distinct_nontrivial"] = len(distinct)
     chk.coverage["rule"] = ("(a) polyak_update on generated tensor lists (exact dyadic stream with tolerance 0, toleranced stream 1e-6, 15% length mismatches); "
@@ -670,7 +768,7 @@ def replay(path):
         mflags = common.coq_eval_many("C08_replay", HEADER, [model_expr(cfg, flags, gs)])[0]
         orc = oracle_run(cfg, im, flags, gs, actor, structural)
         print(json.dumps({"flags": flags, "model_flags": mflags, "train_calls": gs, "oracle": orc[:10]}, indent=1))
-        return 1 if [p for p in orc if p[0] != KNOWN_F9] or list(mflags) != flags else 0
+        return 1 if [p for p in orc if p[0] not in (KNOWN_F9, CAND_SHARED)] or list(mflags) != flags else 0
     c = d["polyak_case"]
     im = run_polyak(c)
     orc = oracle_polyak(c, im)
